@@ -116,9 +116,9 @@ def _one(item):
 def main(tier):
     ck = vcheck.Check("C02", "model_checking", tier)
     if tier == "thorough":
-        runs = [["bfs", "full", 3, 10], ["bfs", "full", 4, 9]] + simlevel.HISTORY_RUNS_THOROUGH
+        runs = [["bfs", "full", 3, 10], ["bfs", "full", 4, 9]] + simlevel.HISTORY_RUNS_THOROUGH + simlevel.COMPLEX_RUNS_THOROUGH
     else:
-        runs = [["bfs", "full", 3, 8]] + simlevel.HISTORY_RUNS_QUICK
+        runs = [["bfs", "full", 3, 8]] + simlevel.HISTORY_RUNS_QUICK + simlevel.COMPLEX_RUNS_QUICK
     res = simlevel.run_all(runs)
     simlevel.report(ck, res, {"C02"})
     for d in res:
